@@ -581,3 +581,97 @@ def check_C03(ctx):
         return validate_star(ctx, mod, mod + ".cfg", ctx.replay, parts=1)
     prim_trace(ctx, "xcase,xf", parts=4 if not ctx.thorough else 8, what="cross-engine primitive case")
     code_family(ctx, "c03", what="round on every engine")
+
+
+# ======================================================================
+# C14 dispatch
+
+def check_C14(ctx):
+    ctx.rule = ("Dispatch.tla model-checked for the x86 and AArch64 preference orders (all feature subsets, all call sequences); the real DefaultEngine is run under "
+                "all 4 subsets of {AVX2, SSSE3} through hook H3 (construction, fft/ifft/mul, eval_poly, whole encode/decode rounds through DefaultRate*, ReedSolomon* and "
+                "the one-shot functions, both rates), every #[target_feature] entry point counted; Trace_Dispatch requires every executed instruction set to be reported "
+                "and the best reported one, SIMD code to be used where reported, none when nothing is reported, and identical result digests under every mask. "
+                "distinct = recorded calls")
+    ctx.assumptions = ["the mask restricts detection, it cannot add features the host CPU lacks (this host reports AVX2 and SSSE3)",
+                       "AArch64 detection cannot be exercised on this host: only the model covers it"]
+    if ctx.replay:
+        r = tlc_trace_seq("Trace_Dispatch", "Trace_Dispatch.cfg", ctx.replay)
+        if not r["accepted"]:
+            ctx.violation("dispatch trace rejected at line %s" % ((r["matched"] or 0) + 1), ctx.replay, {"source": "trace"})
+        return
+    model_must_hold(ctx, "MC_Dispatch", "MC_Dispatch_X86.cfg", workers=2)
+    model_must_hold(ctx, "MC_Dispatch", "MC_Dispatch_Arm.cfg", workers=2)
+    trace = ctx.path("dispatch.ndjson")
+    rc, info, out = harness(["dispatch", "--out", trace, "--seed", ctx.seed, "--tier", ctx.tier])
+    ctx.evaluations += info["events"]
+    ctx.extra["host_reports"] = {"avx2": info["real"][0], "ssse3": info["real"][1]}
+    r = tlc_trace_seq("Trace_Dispatch", "Trace_Dispatch.cfg", trace)
+    ctx.states += r["states"]
+    ctx.transitions += r["transitions"]
+    log("[trace] dispatch: %d events accepted=%s" % (r["events"], r["accepted"]))
+    lines = open(trace).read().splitlines()
+    if r["accepted"]:
+        ctx.traces += sum(1 for x in lines if '"ev":"mask"' in x)
+        ctx.distinct = r["events"]
+        ctx.exhaustive = True
+    else:
+        at = r["matched"] or 0
+        start = at
+        while start > 0 and '"ev":"mask"' not in lines[start]:
+            start -= 1
+        p = save_replay(ctx.prop, "violation-dispatch-line%d.ndjson" % (at + 1), "\n".join(lines[start:at + 1]))
+        ctx.violation("dispatch event rejected by Trace_Dispatch (%s) at line %d: %s" % (r["violated"] or "no action explains it", at + 1, short(lines[at], 500)), p, {"source": "trace"})
+    sample_events(ctx, lines, n=3, maxlen=400)
+
+
+# ======================================================================
+# C16 concurrency of independent objects / racing table initialisation
+
+def check_C16(ctx):
+    ctx.rule = ("(1) fresh single-threaded processes force each table alone and construct/use each engine: the nesting of hook H4's begin/end events gives the ACTUAL "
+                "dependency relation and per-engine programs of the current tree; (2) TableInit.tla is model-checked over exactly those (3 threads, every choice of programs, "
+                "all interleavings): no re-entrant initialisation, no deadlock, termination under weak fairness; (3) fresh processes with 2..8 threads released by a "
+                "barrier, different engines, encode+decode rounds, objects handed to another thread mid-round: Trace_TableInit checks nesting, no re-entrancy, nesting within "
+                "the observed dependencies, every result = sequential execution, normal exit (a watchdog turns a hang into a rejected event). distinct = processes")
+    ctx.assumptions = ["real thread schedules are those the OS produced in this run; all interleavings are explored only in the model, over the observed dependencies",
+                       "std::sync::LazyLock semantics (block while another thread initialises; re-entrancy never completes) are modelled, not re-verified"]
+    if ctx.replay:
+        d = os.path.dirname(ctx.replay)
+        r = tlc_trace_seq("Trace_TableInit", "Trace_TableInit.cfg", ctx.replay, extra_env={"DEPS": os.path.join(d, "deps.ndjson")})
+        if not r["accepted"]:
+            ctx.violation("thread trace rejected at line %s" % ((r["matched"] or 0) + 1), ctx.replay, {"source": "trace"})
+        return
+    races = 2000 if ctx.thorough else 60
+    rc, info, out = harness(["threads", "--outdir", ctx.dir, "--seed", ctx.seed, "--races", races, "--par", 6])
+    deps, trace = ctx.path("deps.ndjson"), ctx.path("trace.ndjson")
+    ctx.evaluations += info["events"]
+    ctx.extra["processes"] = info["procs"]
+    ctx.extra["observed"] = open(deps).read().splitlines()
+    # the model over the observed dependencies: a violation here is a property violation (cycle / deadlock possible)
+    res = tlc_run("MC_TableInit", "MC_TableInit.cfg", workers=6, timeout=1800, env={"DEPS": deps}, tag="MC_TableInit_" + ctx.prop)
+    log("[tlc] MC_TableInit: %d generated, %d distinct, ok=%s %.1fs" % (res["generated"], res["distinct"], res["ok"], res["wall"]))
+    ctx.add_model("MC_TableInit/observed-deps", res)
+    if not res["ok"]:
+        p = save_replay(ctx.prop, "violation-model.txt", "observed dependencies and programs:\n" + open(deps).read() + "\nTLC:\n" + res["out"][-6000:])
+        ctx.violation("TableInit.tla over the dependencies observed from the code violates %s: some interleaving of racing first uses never completes" % res["violated"],
+                      p, {"source": "model", "violated": res["violated"]})
+    r = tlc_trace_seq("Trace_TableInit", "Trace_TableInit.cfg", trace, extra_env={"DEPS": deps})
+    ctx.states += r["states"]
+    ctx.transitions += r["transitions"]
+    log("[trace] threads: %d events accepted=%s" % (r["events"], r["accepted"]))
+    lines = open(trace).read().splitlines()
+    if r["accepted"]:
+        ctx.traces += info["procs"]
+        ctx.distinct = info["procs"]
+    else:
+        at = r["matched"] or 0
+        start = at
+        while start > 0 and '"ev":"proc"' not in lines[start]:
+            start -= 1
+        p = save_replay(ctx.prop, "trace-violation.ndjson", "\n".join(lines[start:at + 1]))
+        ctx.violation("process event rejected by Trace_TableInit at line %d: %s (process: %s)" % (at + 1, short(lines[at], 400), short(lines[start], 200)), p, {"source": "trace"})
+    for ln in lines:
+        if '"kind":"race"' in ln:
+            ctx.samples.append(ln)
+            break
+    ctx.samples.append(lines[len(lines) // 2])
